@@ -258,6 +258,9 @@ package json
 // It is defined as the completeness output of Parse; what completeness implies is stated by
 // the C09 clauses of the scanner functions.
 //@ ghostfun parseComplete(bytes) bool
+// insp(raw): the number of bytes Parse reports as inspected (its deterministic answer; the scanner
+// contracts say what it may count: J1/J2, consumeConst/consumeString exact counts)
+//@ ghostfun insp(bytes) int
 // startsContainer(b): the first non-space byte of b opens an object or array. Opaque to callers
 // (they do not `use` container_def); Parse is proved to report exactly it through firstToken.
 //@ ghostfun startsContainer(bytes) bool
@@ -269,6 +272,7 @@ package json
 //@   ensures [C08C09_J2] 0 <= inspected && inspected <= len(raw)
 //@   ensures [C08_J1] parsed > 0 ==> inspected == parsed
 //@   defines (parsed == len(raw) && len(raw) > 0) == parseComplete(raw)
+//@   defines inspected == insp(raw)
 //@   ensures [C08_G_tok] wsLen(raw) < len(raw) ==> firstToken == tokOf(raw[wsLen(raw)])
 //@   ensures [C13_G_tok_container] (firstToken == TokArray || firstToken == TokObject) == startsContainer(raw)
 //@   uses container_def
